@@ -18,10 +18,16 @@
   Operands that cannot be hashed (a `list` / `dict` / `set`, an object without `__hash__`, an
   object whose `__hash__` raises) are *rejected*: result `Res.rejected` (`TypeError`, or whatever
   the operand's own `__hash__` raises).  They are separate constructors of `Op` / `SOp`, so that
-  `K` and `V` stay the types of the hashable keys and values.  The model follows the code as it
-  is today, statement by statement, so a rejected operation can fail HALF-WAY: the exception
-  comes out of the statement that first hashes the operand and everything done before it stays
-  done (`setitemBadKey`, `sdSetRefused`).
+  `K` and `V` stay the types of the hashable keys and values.  Since the repairs 9cbe718 / 735182a
+  both `__setitem__` methods hash their operands in their first statements, so every rejected
+  operation leaves the state untouched.  The code BEFORE the repairs failed half-way; its model is
+  kept (`setitemBadKey`, `sdSetRefused`, not part of `step` / `sdStep`) together with the theorems
+  that say what it did, because a regression to it is the typical way to break this property.
+
+  What the caller writes (`Call` / `SCall`): every operation with a key argument of any shape —
+  a single key or a tuple of any length whose items are hashable keys, unhashable objects and (for
+  `StrategyDict`) hashable non-strings, at every position — is classified by `Call.toOp` /
+  `SCall.toOp` into the operations of a history, following the first statements of the methods.
 -/
 namespace ALV.C15
 
@@ -156,6 +162,8 @@ inductive Res (K V : Type) where
   | done | keyError | attrError | notImpl
   | val (v : V) | keys (t : List K) | num (n : Nat)
   | rejected
+  /-- `True` / `False` (`key in d`) and `None` (`d.get(key)` of a missing key) -/
+  | bool (b : Bool) | pyNone
   deriving DecidableEq
 
 /-- `MultiKeyDict.__setitem__(keys, value)` with an UNHASHABLE `value` (`d[k] = []`): the first
@@ -163,7 +171,9 @@ inductive Res (K V : Type) where
     anything is changed.  (`keys` may contain anything.) -/
 def setitemUnhashable (s : St K V) (_keys : List K) : St K V × Res K V := (s, .rejected)
 
-/-- the keys that `__setitem__` has already deleted when it meets the unhashable key `BAD` of the
+/-! ### before the repair 9cbe718 (no `hash(key)` in front): kept for the regression theorems -/
+
+/-- the keys that `__setitem__` had already deleted when it met the unhashable key `BAD` of the
     key tuple `before ++ (BAD,) ++ after`: the value's old keys are prepended and the tuple is
     de-duplicated (both by `==` on the keys, nothing is hashed yet), then "Remove the overwritten
     data" walks the tuple and hashes key after key (`k in self._keys_dict`) -/
@@ -175,8 +185,8 @@ def badKeyPrefix (s : St K V) (before after : List K) (value : V) : List K :=
   (key.takeWhile (fun k => k.isSome)).filterMap id
 
 /-- `MultiKeyDict.__setitem__` with a hashable value and a key tuple `before ++ (BAD,) ++ after`
-    holding one UNHASHABLE key (`d[("c", [])] = 1`, `d[[]] = 1`): as the code is today the
-    exception comes out of the deletion loop, after the keys in front of `BAD` (the value's own old
+    holding one UNHASHABLE key (`d[("c", [])] = 1`, `d[[]] = 1`) BEFORE the repair: the
+    exception came out of the deletion loop, after the keys in front of `BAD` (the value's own old
     keys included) have lost their values -/
 def setitemBadKey (s : St K V) (before after : List K) (value : V) : St K V × Res K V :=
   match delLoop s (badKeyPrefix s before after value) with
@@ -194,14 +204,29 @@ inductive Op (K V : Type) where
   | len
   /-- `d[keys] = value`, `value` unhashable -/
   | setUnhashable (keys : List K)
-  /-- `d[before ++ (BAD,) ++ after] = value`, `BAD` unhashable, `value` hashable -/
+  /-- `d[before ++ (BAD,) ++ after] = value`, `BAD` unhashable, `value` hashable: refused by
+      `hash(key)` before anything is changed -/
   | setBadKey (before after : List K) (value : V)
   /-- a lookup or deletion whose operand is unhashable: `d[BAD]`, `del d[BAD]`, `d.key2keys(BAD)`,
       `d.value2keys(BAD)`, `d[(k, BAD)]` — each hashes the operand in its first statement -/
   | badOperand
+  /-- an operation whose outcome does not depend on the dict and that changes nothing: a lookup /
+      deletion / `key2keys` whose operand is a TUPLE (`del d[("a", "b")]`: keys are never tuples, so
+      `self._keys_dict[key]` raises `KeyError`), `"a" in d` and `d.get("a")` with a non-tuple (the
+      inherited `dict` methods see the key-TUPLE storage: `False` / `None`) -/
+  | const (r : Res K V)
+  /-- `key_tuple in d` — `dict.__contains__`, inherited: looks the tuple up in the storage -/
+  | contains (keyTuple : List K)
+  /-- `d.get(key_tuple)` — `dict.get`, inherited: the stored value or `None` -/
+  | dictGet (keyTuple : List K)
 
 def Res.ofVal : Option V → Res K V
   | none => .keyError
+  | some v => .val v
+
+/-- `d.get(key)`: the value or `None` -/
+def Res.orNone : Option V → Res K V
+  | none => .pyNone
   | some v => .val v
 
 def Res.ofKeys : Option (List K) → Res K V
@@ -222,8 +247,12 @@ def step (s : St K V) : Op K V → St K V × Res K V
   | .value2keys value => (s, .keys (value2keys s value))
   | .len => (s, .num (len s))
   | .setUnhashable keys => setitemUnhashable s keys
-  | .setBadKey before after value => setitemBadKey s before after value
+  -- `hash(key)` is the first statement after the tuple-isation: refused before anything is changed
+  | .setBadKey _ _ _ => (s, .rejected)
   | .badOperand => (s, .rejected)
+  | .const r => (s, r)
+  | .contains kt => (s, .bool (dhas s.store kt))
+  | .dictGet kt => (s, Res.orNone (getTuple s kt))
 
 /-- run a history from a state: final state and the results in order -/
 def run : St K V → List (Op K V) → St K V × List (Res K V)
@@ -236,6 +265,106 @@ def run : St K V → List (Op K V) → St K V × List (Res K V)
 /-- `MultiKeyDict(mapping)` : `for key, value in iteritems(dict(*args, **kwargs)): self[key] = value` -/
 def ofDict (items : List (K × V)) : St K V :=
   (run St.empty (items.map fun e => Op.set [e.1] e.2)).1
+
+/-- `dict(*args, **kwargs)` over a list of pairs (a mapping, an iterable of pairs, keyword
+    arguments after them): a key given again keeps its FIRST position and takes the LAST value -/
+def dictOf {A B : Type} [DecidableEq A] (pairs : List (A × B)) : Dict A B :=
+  pairs.foldl (fun d e => dset d e.1 e.2) []
+
+/-- the assignments the constructor performs -/
+def ctorOps (pairs : List (List K × V)) : List (Op K V) := (dictOf pairs).map fun e => Op.set e.1 e.2
+
+/-- `MultiKeyDict(*args, **kwargs)` in general: the arguments are first collapsed by `dict(...)`,
+    then assigned one by one; a key of the mapping that is itself a tuple is taken as a KEY TUPLE
+    (`MultiKeyDict({("a", "b"): 1, "c": 1})` has one value with three keys), a non-tuple key `k` is
+    `[k]` (the tie never mixes `k` and the 1-tuple `(k,)` in one call).  `MultiKeyDict.fromkeys(ks, v)`
+    (`dict.fromkeys` on the subclass: `cls()`, then `self[k] = v` for EVERY element, repeated ones
+    included — nothing is collapsed) is `ofDict (ks.map fun k => (k, v))`. -/
+def ofPairs (pairs : List (List K × V)) : St K V := (run St.empty (ctorOps pairs)).1
+
+/-! ### what the caller writes: key arguments of every shape -/
+
+/-- one item of a key argument: a hashable key, or an object that cannot be hashed (`[]`, `{}`,
+    an instance without `__hash__`, an instance whose `__hash__` raises) -/
+inductive KeyItem (K : Type) where
+  | ok (k : K)
+  | unhashable
+
+/-- the key argument of `d[...]`, `d[...] = v`, `del d[...]`, `... in d`, `d.get(...)`,
+    `d.key2keys(...)`: a single object or a tuple (of any length, `()` included) -/
+inductive KeyArg (K : Type) where
+  | single (i : KeyItem K)
+  | tuple (is : List (KeyItem K))
+
+/-- all the items when every one of them is hashable (`hash(tuple)` succeeds), else `none` -/
+def allOk : List (KeyItem K) → Option (List K)
+  | [] => some []
+  | .ok k :: r => (allOk r).map (k :: ·)
+  | .unhashable :: _ => none
+
+/-- `if not isinstance(key, tuple): key = (key,)` -/
+def KeyArg.items : KeyArg K → List (KeyItem K)
+  | .single i => [i]
+  | .tuple is => is
+
+/-- a call on a `MultiKeyDict`; `value = none` is an unhashable value -/
+inductive Call (K V : Type) where
+  | setitem (arg : KeyArg K) (value : Option V)
+  | getitem (arg : KeyArg K)
+  | delitem (arg : KeyArg K)
+  | key2keys (arg : KeyArg K)
+  | value2keys (value : Option V)
+  | contains (arg : KeyArg K)
+  | dictGet (arg : KeyArg K)
+  | len
+
+/-- which operation of a history a call is, read off the first statements of the methods -/
+def Call.toOp : Call K V → Op K V
+  -- `__setitem__`: tuple-ise; `hash(key)` refuses an unhashable item at ANY position; then
+  -- `value in self._inv_dict` hashes the value; only then is anything changed
+  | .setitem arg value =>
+    match allOk arg.items, value with
+    | some keys, some v => .set keys v
+    | some keys, none => .setUnhashable keys
+    | none, _ => .badOperand
+  -- `__getitem__`: a tuple goes to the storage (`super().__getitem__(key)` hashes the tuple),
+  -- anything else through `self._keys_dict[key]`
+  | .getitem (.single (.ok k)) => .get k
+  | .getitem (.single .unhashable) => .badOperand
+  | .getitem (.tuple is) => match allOk is with
+    | some t => .getT t
+    | none => .badOperand
+  -- `__delitem__`, `key2keys`: `self._keys_dict[key]` — a tuple of hashables is a key that is not
+  -- there (`KeyError`), an unhashable item anywhere makes the lookup raise `TypeError`
+  | .delitem (.single (.ok k)) => .del k
+  | .delitem (.single .unhashable) => .badOperand
+  | .delitem (.tuple is) => match allOk is with
+    | some _ => .const .keyError
+    | none => .badOperand
+  | .key2keys (.single (.ok k)) => .key2keys k
+  | .key2keys (.single .unhashable) => .badOperand
+  | .key2keys (.tuple is) => match allOk is with
+    | some _ => .const .keyError
+    | none => .badOperand
+  -- `value2keys`: `self._inv_dict.get(value, tuple())`
+  | .value2keys (some v) => .value2keys v
+  | .value2keys none => .badOperand
+  -- inherited `dict.__contains__` / `dict.get`: they look at the key-TUPLE storage
+  | .contains (.single (.ok _)) => .const (.bool false)
+  | .contains (.single .unhashable) => .badOperand
+  | .contains (.tuple is) => match allOk is with
+    | some t => .contains t
+    | none => .badOperand
+  | .dictGet (.single (.ok _)) => .const .pyNone
+  | .dictGet (.single .unhashable) => .badOperand
+  | .dictGet (.tuple is) => match allOk is with
+    | some t => .dictGet t
+    | none => .badOperand
+  | .len => .len
+
+def callStep (s : St K V) (c : Call K V) : St K V × Res K V := step s c.toOp
+
+def callRun (s : St K V) (cs : List (Call K V)) : St K V × List (Res K V) := run s (cs.map Call.toOp)
 
 end MK
 
@@ -331,10 +460,11 @@ def sdDefault (s : SD K V) : Option V := dget s.attrs none
 /-- `StrategyDict.__iter__` : `itervalues(self)` -/
 def sdIter (s : SD K V) : List V := storeValues s.mkd
 
-/-- `StrategyDict.__setitem__(key, value)` REFUSED by `super().__setitem__` / by the loop itself:
-    the statement `for k in keys: try: del self[k] except KeyError: pass` comes first, so as the
-    code is today the names `deleted` have already lost their strategies (and the default its
-    names) when the exception arrives.  `deleted` = all the given names when the strategy is
+/-- BEFORE the repair 735182a (no `hash((keys, value))` and no name check in front; kept for the
+    regression theorems, not part of `sdStep`): `StrategyDict.__setitem__(key, value)` REFUSED by
+    `super().__setitem__` / by the loop itself — the statement
+    `for k in keys: try: del self[k] except KeyError: pass` came first, so the names `deleted` had
+    already lost their strategies (and the default its names) when the exception arrived.  `deleted` = all the given names when the strategy is
     unhashable (`sd["a"] = unhashable_callable`), = the names in front of `BAD` when the key tuple
     holds an unhashable name (`self.key2keys(BAD)` raises `TypeError`, which the loop does not catch). -/
 def sdSetRefused (s : SD K V) (deleted : List K) : SD K V × Res K V := (sdDelLoop s deleted, .rejected)
@@ -349,11 +479,21 @@ inductive SOp (K V : Type) where
   | default                                 -- `sd.default`
   | call                                    -- `sd(...)` : which strategy is called
   | len
-  /-- `sd[keys] = value` refused after the names `deleted` were removed (see `sdSetRefused`) -/
+  /-- `sd[keys] = value` with an unhashable strategy / an unhashable or non-string name among the
+      keys (`deleted` = the names in front of it): refused by `hash((keys, value))` / the name check
+      before anything is changed -/
   | setRefused (deleted : List K)
   /-- an operation refused in its first statement: `sd[BAD]`, `del sd[BAD]` with an unhashable `BAD`
       (`self.key2keys(key)` hashes it) -/
   | rejected
+  /-- an operation whose outcome does not depend on the dict and that changes nothing (see `Op.const`);
+      also `sd[7]`, `del sd[7]` for a hashable non-string, which is never a name: `KeyError` -/
+  | const (r : Res K V)
+  /-- `sd[key_tuple]` (inherited from `MultiKeyDict`: the storage) -/
+  | getT (keyTuple : List K)
+  /-- `key_tuple in sd`, `sd.get(key_tuple)` (inherited from `dict`) -/
+  | contains (keyTuple : List K)
+  | dictGet (keyTuple : List K)
 
 def Res.ofExcept (s : SD K V) : Except Err (SD K V) → SD K V × Res K V
   | .ok s' => (s', .done)
@@ -380,8 +520,12 @@ def sdStep (s : SD K V) : SOp K V → SD K V × Res K V
   | .default => (s, .ofDefault (sdDefault s))
   | .call => (s, .ofDefault (sdDefault s))          -- `self.default(*args, **kwargs)`
   | .len => (s, .num (len s.mkd))
-  | .setRefused deleted => sdSetRefused s deleted
+  | .setRefused _ => (s, .rejected)
   | .rejected => (s, .rejected)
+  | .const r => (s, r)
+  | .getT kt => (s, .ofVal (getTuple s.mkd kt))
+  | .contains kt => (s, .bool (dhas s.mkd.store kt))
+  | .dictGet kt => (s, Res.orNone (getTuple s.mkd kt))
 
 def sdRun : SD K V → List (SOp K V) → SD K V × List (Res K V)
   | s, [] => (s, [])
@@ -389,6 +533,101 @@ def sdRun : SD K V → List (SOp K V) → SD K V × List (Res K V)
     let r := sdStep s op
     let t := sdRun r.1 ops
     (t.1, r.2 :: t.2)
+
+/-! ### what the caller writes -/
+
+/-- one item of a key argument of a `StrategyDict`: a name (a string), a hashable object that is
+    not a string (`7`, `None`, `1.5`), an unhashable object -/
+inductive SKeyItem (K : Type) where
+  | ok (k : K)
+  | nonStr
+  | unhashable
+
+inductive SKeyArg (K : Type) where
+  | single (i : SKeyItem K)
+  | tuple (is : List (SKeyItem K))
+
+def SKeyArg.items : SKeyArg K → List (SKeyItem K)
+  | .single i => [i]
+  | .tuple is => is
+
+/-- how a key argument fares in the first statements of `StrategyDict.__setitem__`:
+    `hash((keys, value))` comes first (an unhashable item at any position), then the loop
+    `if not isinstance(k, STR_TYPES): raise TypeError` -/
+inductive Names (K : Type) where
+  | names (ks : List K)     -- all strings
+  | hasNonStr               -- all hashable, a non-string among them
+  | hasUnhashable
+
+def classifyNames : List (SKeyItem K) → Names K
+  | [] => .names []
+  | .unhashable :: _ => .hasUnhashable
+  | .nonStr :: r => match classifyNames r with
+    | .hasUnhashable => .hasUnhashable
+    | _ => .hasNonStr
+  | .ok k :: r => match classifyNames r with
+    | .names ks => .names (k :: ks)
+    | o => o
+
+/-- the names in front of the first item that is not a name -/
+def namesBefore : List (SKeyItem K) → List K
+  | .ok k :: r => k :: namesBefore r
+  | _ => []
+
+inductive SCall (K V : Type) where
+  | setitem (arg : SKeyArg K) (value : Option V)
+  | getitem (arg : SKeyArg K)
+  | delitem (arg : SKeyArg K)
+  | contains (arg : SKeyArg K)
+  | dictGet (arg : SKeyArg K)
+  | getattr (name : K)
+  | setattr (attr : Option K) (value : V)
+  | delattr (attr : Option K)
+  | default | call | len
+
+def SCall.toOp : SCall K V → SOp K V
+  | .setitem arg value =>
+    match classifyNames arg.items, value with
+    | .names keys, some v => .set keys v
+    | _, _ => .setRefused (namesBefore arg.items)
+  -- `MultiKeyDict.__getitem__` (inherited): a non-string is a key like any other, and never stored
+  | .getitem (.single (.ok k)) => .get k
+  | .getitem (.single .nonStr) => .const .keyError
+  | .getitem (.single .unhashable) => .rejected
+  | .getitem (.tuple is) => match classifyNames is with
+    | .names t => .getT t
+    | .hasNonStr => .const .keyError
+    | .hasUnhashable => .rejected
+  -- `StrategyDict.__delitem__`: `keys = self.key2keys(key)` first
+  | .delitem (.single (.ok k)) => .del k
+  | .delitem (.single .nonStr) => .const .keyError
+  | .delitem (.single .unhashable) => .rejected
+  | .delitem (.tuple is) => match classifyNames is with
+    | .hasUnhashable => .rejected
+    | _ => .const .keyError
+  | .contains (.single .unhashable) => .rejected
+  | .contains (.single _) => .const (.bool false)
+  | .contains (.tuple is) => match classifyNames is with
+    | .names t => .contains t
+    | .hasNonStr => .const (.bool false)
+    | .hasUnhashable => .rejected
+  | .dictGet (.single .unhashable) => .rejected
+  | .dictGet (.single _) => .const .pyNone
+  | .dictGet (.tuple is) => match classifyNames is with
+    | .names t => .dictGet t
+    | .hasNonStr => .const .pyNone
+    | .hasUnhashable => .rejected
+  | .getattr n => .getattr n
+  | .setattr a v => .setattr a v
+  | .delattr a => .delattr a
+  | .default => .default
+  | .call => .call
+  | .len => .len
+
+def sdCallStep (s : SD K V) (c : SCall K V) : SD K V × Res K V := sdStep s c.toOp
+
+def sdCallRun (s : SD K V) (cs : List (SCall K V)) : SD K V × List (Res K V) :=
+  sdRun s (cs.map SCall.toOp)
 
 end SD
 end ALV.C15
